@@ -516,6 +516,13 @@ func (c *Conn) Closed() bool {
 // and then closing the underlying TCP connection.
 func (c *Conn) Close() error {
 	if !atomic.CompareAndSwapUint64(&c.closed, 0, 1) {
+		// Whoever got here first closes done as its next step. Callers go by
+		// "once Close has returned, Write hands out no more requests": the
+		// write loop drains its queue for the last time right after calling
+		// Close, and a request that Write slipped in after that, because done
+		// was not closed yet, was never resolved by anybody.
+		<-c.done
+
 		return io.EOF
 	}
 
